@@ -200,6 +200,28 @@ example : ∀ g ∈ [exCounts, exMissingKnots], ∃ e, readFixed exExt g = .erro
   · exact ⟨_, exCounts_fixed⟩
   · exact ⟨.knotSize 1, by decide⟩
 
+/-- which stops exist for a table of `nd` dimensions -/
+def Fits.Stop.valid (nd : Nat) : Stop → Prop
+  | .knot i _ => i < nd
+  | _ => True
+
+/-- The storage guard empties the object at **every** throw site of the source, reachable in the reader model or
+    not (`imgSize` stands for the two throws after `fits_get_img_size` — cfitsio error, negative axis — which the
+    abstract store cannot produce), for every number of dimensions. -/
+theorem C07_cleanup_every_stop (nd : Nat) (s : Stop) (h : s.valid nd) :
+    cleanup (stateAt true nd s) = .ok Obj.empty := by
+  cases s with
+  | early => exact cleanup_early nd
+  | order => exact cleanup_order nd
+  | imgSize => exact cleanup_imgSize nd
+  | readPix => exact cleanup_readPix nd
+  | knot i a => exact cleanup_knot nd i a h
+  | extData => exact cleanup_extData nd
+  | done => exact cleanup_extData nd
+
+example : (Stop.knot 1 true).valid 3 ∧ (stateAt true 3 (.knot 1 true)).live.length = 12 :=
+  ⟨show 1 < 3 by decide, by decide⟩
+
 /-! ## every accepted table is safe to use: composition with C04 (lookup) and C05 (evaluation) -/
 
 /-- **Lookup on an accepted table**, for every coordinate vector (`none` = NaN) and whatever the memory beyond the
@@ -356,6 +378,29 @@ theorem C07_accepted_sizes (E : Ext) (f : Fits) (t : Fits.Table) (h : readFixed 
     rw [he] at hex; rw [hp] at hpe
     exact ⟨e, p, he, by simpa using hex, hp, by simpa using hpe⟩
   · exact defaultExtentsChk_eq _ _ hk (fun i hi => (hd i hi).1)
+
+example : ∃ t, readFixed exExt exValid = .ok t := ⟨_, exValid_read⟩
+
+/-- **Re-serialising an accepted table reads every array exactly to its end.**  `write_fits_core` writes
+    `Π naxes[ndim-1-i]` coefficients, `2·ndim` extents, `ndim` periods and orders and each knot vector whole; in the
+    model the buffers are cut with `take` / indexed with `getD`.  On an accepted table none of these cuts or defaults
+    is ever effective: the counts the writer forms are the lengths of the arrays the reader allocated. -/
+theorem C07_accepted_rewrite_in_bounds (E : Ext) (f : Fits) (t : Fits.Table) (h : readFixed E f = .ok t) :
+    t.coef.take (prod (wAxes t)) = t.coef ∧ prod (wAxes t) = t.coef.length ∧
+    (∀ e, t.extents = some e → e.take (2 * t.ndim) = e) ∧
+    (∀ p, t.periods = some p → p.length = t.ndim) ∧
+    (∀ i, i < t.ndim → i < t.order.length ∧ i < t.knots.length ∧ t.ndim - i - 1 < t.naxes.length) := by
+  obtain ⟨hk, hnx, _, _, hco, ⟨e, p, he, hel, hp, hpl⟩, _⟩ := C07_accepted_sizes E f t h
+  have hw : prod (wAxes t) = t.coef.length := by rw [wAxes_eq t hnx, prod_reverse, hco]
+  refine ⟨by rw [hw, List.take_length], hw, ?_, ?_, ?_⟩
+  · intro e' he'
+    rw [he] at he'; cases he'
+    rw [← hel, List.take_length]
+  · intro p' hp'
+    rw [hp] at hp'; cases hp'
+    exact hpl
+  · intro i hi
+    exact ⟨hi, by omega, by omega⟩
 
 example : ∃ t, readFixed exExt exValid = .ok t := ⟨_, exValid_read⟩
 
